@@ -6,7 +6,7 @@ import json, os, shutil, subprocess, sys, glob, re
 from concurrent.futures import ThreadPoolExecutor
 V = os.path.dirname(os.path.dirname(os.path.abspath(__file__)))
 R = '/repo'
-BASE = '/tmp/vfsweep'
+BASE = '/tmp/vfsweep/%d' % os.getpid()     # one directory per sweep process: concurrent sweeps must not share scratch copies
 
 def sh(*a, **k):
     return subprocess.run(a, stdout=subprocess.PIPE, stderr=subprocess.STDOUT, text=True, **k)
